@@ -21,38 +21,14 @@ theorem no_global_writes : Generated.Effects.globalWrites = [] := by decide
 /-- no goroutine is started anywhere in the library -/
 theorem no_goroutines : Generated.Effects.goStatements = [] := by decide
 
-/-- the only methods that write through their receiver are the JSON decoders (they fill the value being decoded) and the in-memory
-    storage's SetCredential; in particular no method of RelyingParty does -/
-theorem receiver_writes_reviewed : Generated.Effects.receiverWrites = [
-  "fido.AAGUID.UnmarshalJSON: *aaguid",
-  "webauthn.AuthenticatorAssertionResponse.UnmarshalJSON: *response",
-  "webauthn.AuthenticatorAssertionResponse.UnmarshalJSON: response.AuthenticatorData",
-  "webauthn.AuthenticatorAssertionResponse.UnmarshalJSON: response.ClientDataJSON",
-  "webauthn.AuthenticatorAssertionResponse.UnmarshalJSON: response.Signature",
-  "webauthn.AuthenticatorAssertionResponse.UnmarshalJSON: response.UserHandle",
-  "webauthn.AuthenticatorAttestationResponse.UnmarshalJSON: *response",
-  "webauthn.AuthenticatorAttestationResponse.UnmarshalJSON: response.AttestationObject",
-  "webauthn.AuthenticatorAttestationResponse.UnmarshalJSON: response.ClientDataJSON",
-  "webauthn.InMemoryCredentialStorage.SetCredential: storage.m[string(credential.ID)]",
-  "webauthn.PublicKeyAssertionCredential.UnmarshalJSON: *credential",
-  "webauthn.PublicKeyAssertionCredential.UnmarshalJSON: credential.RawID",
-  "webauthn.PublicKeyCreationCredential.UnmarshalJSON: *credential",
-  "webauthn.PublicKeyCreationCredential.UnmarshalJSON: credential.RawID",
-  "webauthn.PublicKeyCredentialCreationOptions.UnmarshalJSON: *creationOptions",
-  "webauthn.PublicKeyCredentialCreationOptions.UnmarshalJSON: creationOptions.Challenge",
-  "webauthn.PublicKeyCredentialCreationOptions.UnmarshalJSON: creationOptions.Timeout",
-  "webauthn.PublicKeyCredentialDescriptor.UnmarshalJSON: *descriptor",
-  "webauthn.PublicKeyCredentialDescriptor.UnmarshalJSON: descriptor.ID",
-  "webauthn.PublicKeyCredentialRequestOptions.UnmarshalJSON: *requestOptions",
-  "webauthn.PublicKeyCredentialRequestOptions.UnmarshalJSON: requestOptions.Challenge",
-  "webauthn.PublicKeyCredentialRequestOptions.UnmarshalJSON: requestOptions.Timeout",
-  "webauthn.PublicKeyCredentialUserEntity.UnmarshalJSON: *user",
-  "webauthn.PublicKeyCredentialUserEntity.UnmarshalJSON: user.ID"] := by decide
+/-- the only methods that write through their receiver are the JSON decoders (`UnmarshalJSON`: they fill the value being decoded) and the
+    in-memory storage's `SetCredential`; no method of RelyingParty writes through its receiver.  (Stated by method name, not by expression.) -/
+theorem receiver_writes_reviewed : Generated.Effects.receiverWriteMethodNames = ["SetCredential", "UnmarshalJSON"]
+    ∧ Generated.Effects.relyingPartyReceiverWrites = [] := by decide
 
 /-- writes through parameters (index assignment, copy destination, append base rooted at a parameter): only the local helper that
-    fills a caller-owned fresh 32-byte array; nothing rooted at options, credentials, responses or stored records -/
-theorem param_writes_reviewed : Generated.Effects.paramWrites =
-    ["cose.copyRightAligned: copy(dst, ...)", "cose.copyRightAligned: copy(dst[len(dst) - len(src):], ...)"] := by decide
+    fills a caller-owned fresh array; nothing rooted at options, credentials, responses or stored records -/
+theorem param_writes_reviewed : Generated.Effects.paramWriteFuncs = ["cose.copyRightAligned"] := by decide
 
 /-! ### the model has no hidden state -/
 
